@@ -338,7 +338,9 @@ def runN (rest : String) : String :=
   | none => "bad-case\t-"
   | some scripts =>
     let s0 := nInit scripts
-    let (s, toks, v, how) := runNObs maxSteps s0 [] ((nCheck s0).map fun e => s!"{e}@0")
+    -- `nested_run_terminates`: within this bound the loop reaches the stall or the guard panic
+    let v0 := if nStallBound s0 > maxSteps then some "budget-below-bound" else (nCheck s0).map fun e => s!"{e}@0"
+    let (s, toks, v, how) := runNObs maxSteps s0 [] v0
     let dn := (List.range s.ntasks).filter fun t => s.log.contains (.exit t true)
     let obs := s!"{" ".intercalate toks} | wc={s.queue.length} end={how} done={if dn.isEmpty then "-" else ".".intercalate (dn.map toString)}"
     obs ++ "\t" ++ (match v with | some e => s!"FAIL:{e}" | none => "ok")
